@@ -118,3 +118,56 @@ impl<Item, Err, O: Observer<Item, Err> + Clone> Observer<Item, Err>
   fn complete(self) { self.0.complete() }
   fn is_finished(&self) -> bool { self.0.is_finished() }
 }
+
+// ---------------------------------------------------------------- C03.S1
+#[derive(Clone)]
+pub struct NeverButCompletes;
+impl<O: Observer<(), Infallible>> Observable<(), Infallible, O> for NeverButCompletes {
+  type Unsub = ();
+  fn actual_subscribe(self, observer: O) -> Self::Unsub { observer.complete() }
+}
+impl ObservableExt<(), Infallible> for NeverButCompletes {}
+
+// ---------------------------------------------------------------- C03.S2 / S3
+/// emits what it gathered together with the error
+pub struct FlushOnErrorObserver<O, Item> { observer: O, data: Vec<Item> }
+impl<Item, Err, O: Observer<Vec<Item>, Err>> Observer<Item, Err>
+  for FlushOnErrorObserver<O, Item>
+{
+  fn next(&mut self, value: Item) { self.data.push(value) }
+  fn error(mut self, err: Err) {
+    let d = std::mem::take(&mut self.data);
+    self.observer.next(d);
+    self.observer.error(err)
+  }
+  fn complete(mut self) {
+    let d = std::mem::take(&mut self.data);
+    self.observer.next(d);
+    self.observer.complete()
+  }
+  fn is_finished(&self) -> bool { self.observer.is_finished() }
+}
+
+pub struct SwallowErrorObserver<O>(O);
+impl<Item, Err, O: Observer<Item, Err>> Observer<Item, Err>
+  for SwallowErrorObserver<O>
+{
+  fn next(&mut self, value: Item) { self.0.next(value) }
+  fn error(self, _err: Err) {}
+  fn complete(self) { self.0.complete() }
+  fn is_finished(&self) -> bool { self.0.is_finished() }
+}
+
+pub struct NoCompleteObserver<O>(O, bool);
+impl<Item, Err, O: Observer<Item, Err>> Observer<Item, Err>
+  for NoCompleteObserver<O>
+{
+  fn next(&mut self, value: Item) { self.0.next(value) }
+  fn error(self, err: Err) { self.0.error(err) }
+  fn complete(self) {
+    if self.1 {
+      self.0.complete()
+    }
+  }
+  fn is_finished(&self) -> bool { self.0.is_finished() }
+}
